@@ -1,7 +1,27 @@
-//! Correspondence harness of property C09 (stub).
-use mzkh::Ctx;
+//! Correspondence harness of property C09: circuit structure never depends on witness or
+//! instance values.
+//!
+//! For every operation circuit (built through the REAL `ZkStdLib` / ZKIR compiler) the circuit's
+//! real `FloorPlanner::synthesize` is driven exactly as `keygen.rs` does, on a recording
+//! `Assignment` backend (`rec::Rec`), with the unknown witness (keygen view) and with every
+//! witness class. Oracle: the recorded structure (selectors, fixed cells with values, advice
+//! positions, copies, table fills, instance queries, number of public inputs) is identical for
+//! all of them; verifying-key bytes, cost model and MockProver fixed/selector/permutation tables
+//! are identical; proofs made with the witness verify under the key made without it.
+//! Correspondence: the Lean model of the single-pass floor planner recomputes, from the
+//! region-relative log of a transparent spy layouter, the absolute placement of every region,
+//! the whole absolute call sequence (as a digest) and the cost model; and from the final call
+//! sequence the keygen view.
+
+mod ops;
+mod rec;
+mod run;
+mod spy;
+
+pub type F = midnight_curves::Fq;
 
 fn main() {
-    let ctx = Ctx::from_args("C09");
+    let mut ctx = mzkh::Ctx::from_args("C09");
+    run::run(&mut ctx);
     ctx.finish();
 }
